@@ -45,28 +45,28 @@ type LRef struct {
 }
 
 type QOp struct {
-	K       string  `json:"k"`
-	Items   []QItem `json:"items,omitempty"`
-	Batch   bool    `json:"batch,omitempty"`
-	Route   string  `json:"route,omitempty"`
-	Target  string  `json:"target,omitempty"`
-	N       int     `json:"n,omitempty"`
-	TTLMs   int     `json:"ttl_ms,omitempty"`
-	UseNow  bool    `json:"use_now,omitempty"`
-	L       *LRef   `json:"l,omitempty"`
-	Ls      []LRef  `json:"ls,omitempty"`
-	DurMs   int     `json:"dur_ms,omitempty"`
-	Reason  string  `json:"reason,omitempty"`
-	IDs     []string `json:"ids,omitempty"`
-	State   string  `json:"state,omitempty"`
-	BeforeMs int    `json:"before_ms,omitempty"` // absolute offset from T0 (0: none)
-	BeforeOf string `json:"before_of,omitempty"` // "received_at of message id" (resolved at run time)
-	Preview bool    `json:"preview,omitempty"`
-	Order   string  `json:"order,omitempty"`
-	Inc     int     `json:"inc,omitempty"`
-	AdvMode string  `json:"adv_mode,omitempty"` // "" | lease | nextrun
-	AdvK    int     `json:"adv_k,omitempty"`
-	Ms      int     `json:"ms,omitempty"`
+	K        string   `json:"k"`
+	Items    []QItem  `json:"items,omitempty"`
+	Batch    bool     `json:"batch,omitempty"`
+	Route    string   `json:"route,omitempty"`
+	Target   string   `json:"target,omitempty"`
+	N        int      `json:"n,omitempty"`
+	TTLMs    int      `json:"ttl_ms,omitempty"`
+	UseNow   bool     `json:"use_now,omitempty"`
+	L        *LRef    `json:"l,omitempty"`
+	Ls       []LRef   `json:"ls,omitempty"`
+	DurMs    int      `json:"dur_ms,omitempty"`
+	Reason   string   `json:"reason,omitempty"`
+	IDs      []string `json:"ids,omitempty"`
+	State    string   `json:"state,omitempty"`
+	BeforeMs int      `json:"before_ms,omitempty"` // absolute offset from T0 (0: none)
+	BeforeOf string   `json:"before_of,omitempty"` // "received_at of message id" (resolved at run time)
+	Preview  bool     `json:"preview,omitempty"`
+	Order    string   `json:"order,omitempty"`
+	Inc      int      `json:"inc,omitempty"`
+	AdvMode  string   `json:"adv_mode,omitempty"` // "" | lease | nextrun
+	AdvK     int      `json:"adv_k,omitempty"`
+	Ms       int      `json:"ms,omitempty"`
 }
 
 type QCase struct {
@@ -112,6 +112,7 @@ type qProfile struct {
 	fullBias    bool // bias to full queues
 	blankIDs    bool
 	deliveredOK bool // allow delivered retention together with max_depth on memory
+	motifs      [][]QOp
 }
 
 func genQCfg(t *rapid.T, p qProfile) QCfg {
@@ -399,7 +400,18 @@ func genQCase(p qProfile) *rapid.Generator[QCase] {
 		if lo > p.maxOps {
 			lo = p.maxOps
 		}
-		c.Ops = append(c.Ops, rapid.SliceOfN(opGen, lo, p.maxOps).Draw(t, "ops")...)
+		body := rapid.SliceOfN(opGen, lo, p.maxOps).Draw(t, "ops")
+		// motifs: short op sequences that set up the situation a property is about; spliced into the
+		// generated body at a drawn position (all ordinary ops, all shrinkable)
+		if len(p.motifs) > 0 && rapid.IntRange(0, 2).Draw(t, "motif") > 0 {
+			m := p.motifs[rapid.IntRange(0, len(p.motifs)-1).Draw(t, "motif_kind")]
+			at := rapid.IntRange(0, len(body)).Draw(t, "motif_at")
+			spliced := append([]QOp(nil), body[:at]...)
+			spliced = append(spliced, m...)
+			spliced = append(spliced, body[at:]...)
+			body = spliced
+		}
+		c.Ops = append(c.Ops, body...)
 		return c
 	})
 }
@@ -407,6 +419,34 @@ func genQCase(p qProfile) *rapid.Generator[QCase] {
 // ---------------------------------------------------------------------------------------
 // Profiles
 // ---------------------------------------------------------------------------------------
+
+func lref(k int) *LRef { return &LRef{K: k} }
+
+var (
+	motifEnq      = QOp{K: "enq", Items: []QItem{{ID: "m0", Route: "/a", Target: "pull"}}}
+	motifEnq2     = QOp{K: "enq", Items: []QItem{{ID: "m1", Route: "/a", Target: "pull"}}}
+	motifDeqShort = QOp{K: "deq", Route: "/a", N: 5, TTLMs: 20}
+	motifDeqLong  = QOp{K: "deq", Route: "/a", N: 5, TTLMs: 30000}
+	// a message is leased, released, leased again: then the older lease id is presented
+	motifsStale = [][]QOp{
+		{motifEnq, motifDeqLong, {K: "nack", L: lref(-1)}, motifDeqLong, {K: "ack", L: lref(-2)}, {K: "nack", L: lref(-2), DurMs: 10}, {K: "dead", L: lref(-2), Reason: "no_retry"}, {K: "ext", L: lref(-2), DurMs: 50}},
+		{motifEnq, motifEnq2, motifDeqLong, {K: "nackb", Ls: []LRef{{K: -1}, {K: -2}}}, motifDeqLong, {K: "ackb", Ls: []LRef{{K: -1}, {K: -3}}}},
+		{motifEnq, motifDeqShort, {K: "adv", AdvMode: "lease", AdvK: -1}, motifDeqLong, {K: "ack", L: lref(-2)}, {K: "ext", L: lref(-2), DurMs: 1000}},
+		{motifEnq, motifDeqLong, {K: "cancel", IDs: []string{"m0"}}, {K: "ack", L: lref(-1)}, {K: "resume", IDs: []string{"m0"}}, {K: "nack", L: lref(-1)}, motifDeqLong, {K: "dead", L: lref(-2), Reason: "x"}},
+		{motifEnq, motifDeqShort, {K: "adv", AdvMode: "lease", AdvK: -1}, {K: "ack", L: lref(-1)}, {K: "ack", L: lref(-1)}},
+	}
+	// expiry, then re-grant; extend then expire
+	motifsExpiry = [][]QOp{
+		{motifEnq, motifDeqShort, {K: "adv", AdvMode: "lease", AdvK: -1, Ms: -10}, motifDeqLong, {K: "adv", Ms: 10}, motifDeqLong},
+		{motifEnq, motifDeqShort, {K: "ext", L: lref(-1), DurMs: 20}, {K: "adv", Ms: 20}, motifDeqLong, {K: "adv", Ms: 20}, motifDeqLong},
+		{motifEnq, motifEnq2, motifDeqShort, {K: "cancel", IDs: []string{"m0"}}, {K: "requeue", IDs: []string{"m0"}}, motifDeqLong, {K: "adv", Ms: 20}, motifDeqLong},
+	}
+	// delayed nack, future next_run_at, mixed readiness
+	motifsReady = [][]QOp{
+		{motifEnq, motifEnq2, motifDeqLong, {K: "nack", L: lref(-1), DurMs: 20}, {K: "nack", L: lref(-2), DurMs: 0}, {K: "deq", Route: "/a", N: 1}, {K: "adv", Ms: 10}, {K: "deq", Route: "/a", N: 5}, {K: "adv", Ms: 10}, {K: "deq", Route: "/a", N: 5}},
+		{{K: "enq", Items: []QItem{{ID: "m2", Route: "/a", Target: "pull", NextInMs: 20}}}, motifEnq, {K: "deq", Route: "/a", N: 2}, {K: "adv", Ms: 20}, {K: "deq", Route: "/a", N: 2}},
+	}
+)
 
 func baseWeights() map[string]int {
 	return map[string]int{
@@ -434,7 +474,7 @@ func profileC03() qProfile {
 	w["resume"] = 3
 	return qProfile{name: "C03", backends: []string{"memory", "sqlite"}, depths: []int{0, 0, 0, 5},
 		drops: []string{"reject", "drop_oldest"}, retention: false, maxOps: 40, weights: w,
-		padSingle: true, explicitTS: 5, blankIDs: true, deliveredOK: true}
+		padSingle: true, explicitTS: 5, blankIDs: true, deliveredOK: true, motifs: motifsExpiry}
 }
 
 func profileC04() qProfile {
@@ -446,7 +486,7 @@ func profileC04() qProfile {
 	w["cancel"] = 3
 	return qProfile{name: "C04", backends: []string{"memory", "sqlite"}, depths: []int{0, 0, 0, 5},
 		drops: []string{"reject"}, retention: false, maxOps: 40, weights: w,
-		padSingle: true, explicitTS: 5, blankIDs: true, deliveredOK: true}
+		padSingle: true, explicitTS: 5, blankIDs: true, deliveredOK: true, motifs: motifsStale}
 }
 
 func profileC05() qProfile {
@@ -458,7 +498,7 @@ func profileC05() qProfile {
 	w["enq"] = 12
 	return qProfile{name: "C05", backends: []string{"memory", "sqlite"}, depths: []int{0, 0, 0, 5},
 		drops: []string{"reject"}, retention: false, maxOps: 40, weights: w,
-		padSingle: true, explicitTS: 10, blankIDs: true, deliveredOK: true}
+		padSingle: true, explicitTS: 10, blankIDs: true, deliveredOK: true, motifs: motifsReady}
 }
 
 func profileC05Sub() qProfile {
